@@ -32,6 +32,8 @@ def _is_identity(action) -> bool:
     """Check if the given action is equivalent to an identity."""
     gate = action.gate if isinstance(action, ops.Operation) else action
     if isinstance(gate, (ops.XPowGate, ops.CXPowGate, ops.CCXPowGate, ops.SwapPowGate)):
+        if getattr(gate, 'dimension', 2) != 2:
+            return False  # a qudit X**2 is a shift by two levels, not the identity
         return gate.exponent % 2 == 0
     return False
 
